@@ -3,7 +3,9 @@ package world
 import (
 	"context"
 	"crypto/sha256"
+	"fmt"
 	"os"
+	"sync/atomic"
 	"time"
 
 	ds "github.com/ipfs/go-datastore"
@@ -45,7 +47,10 @@ type NodeOpts struct {
 	LazyInterval  time.Duration
 	MaxPending    uint64
 	// ViaDAClient: the node talks to the DA layer through its real DA client (see ViaClient).
-	ViaDAClient bool
+	// Prometheus: instrumentation.prometheus = true (labelled Prometheus collectors instead of discard metrics).
+	Prometheus    bool
+	ViaDAClient   bool
+	DAClientLimit uint64
 	RootDir       string
 	DAStartHeight uint64
 	MempoolTTL    uint64
@@ -107,6 +112,19 @@ type Node struct {
 	DStore  *P2PStore[*types.Data]
 	PubKey  crypto.PubKey
 	Opts    NodeOpts
+	Metrics *block.Metrics
+}
+
+var promSeq atomic.Uint64
+
+// metricsFor builds the block metrics the way node.DefaultMetricsProvider does: Prometheus collectors with a
+// chain_id label when instrumentation is on (a namespace of its own per node, because the collectors register
+// themselves with the process-wide default registry), discard metrics otherwise.
+func metricsFor(o NodeOpts) *block.Metrics {
+	if !o.Prometheus {
+		return block.NopMetrics()
+	}
+	return block.PrometheusMetrics(fmt.Sprintf("verif%d", promSeq.Add(1)), "chain_id", o.ChainID)
 }
 
 // MainKV wraps a raw datastore the way node/full.go does (prefix "0").
@@ -147,11 +165,16 @@ func NewNode(ctx context.Context, o NodeOpts, raw ds.Batching, sgn signer.Signer
 	n.DB = &Bcast[*types.Data]{}
 	n.HStore = NewP2PStore[*types.SignedHeader]()
 	n.DStore = NewP2PStore[*types.Data]()
+	if o.Aggregator {
+		n.HB.Own = n.HStore.TakeOwn
+		n.DB.Own = n.DStore.TakeOwn
+	}
+	n.Metrics = metricsFor(o)
 	if o.ViaDAClient {
-		da = ViaClient(da, 0)
+		da = ViaClient(da, o.DAClientLimit)
 	}
 	m, err := block.NewManager(ctx, sgn, n.Cfg, n.Genesis, n.Store, exec, seq, da, Logger(),
-		n.HStore, n.DStore, n.HB, n.DB, block.NopMetrics(), 1.0, 1.5, o.ManagerOptions())
+		n.HStore, n.DStore, n.HB, n.DB, n.Metrics, 1.0, 1.5, o.ManagerOptions())
 	if err != nil {
 		return nil, err
 	}
@@ -166,11 +189,12 @@ func (n *Node) Restart(ctx context.Context, raw ds.Batching, sgn signer.Signer,
 	nn := &Node{Raw: raw, KV: MainKV(raw), PubKey: n.PubKey, Genesis: n.Genesis, Cfg: n.Cfg,
 		HB: n.HB, DB: n.DB, HStore: n.HStore, DStore: n.DStore, Opts: n.Opts}
 	nn.Store = storepkg.New(nn.KV)
+	nn.Metrics = metricsFor(n.Opts) // a new process: a new registry
 	if n.Opts.ViaDAClient {
-		da = ViaClient(da, 0)
+		da = ViaClient(da, n.Opts.DAClientLimit)
 	}
 	m, err := block.NewManager(ctx, sgn, nn.Cfg, nn.Genesis, nn.Store, exec, seq, da, Logger(),
-		nn.HStore, nn.DStore, nn.HB, nn.DB, block.NopMetrics(), 1.0, 1.5, n.Opts.ManagerOptions())
+		nn.HStore, nn.DStore, nn.HB, nn.DB, nn.Metrics, 1.0, 1.5, n.Opts.ManagerOptions())
 	if err != nil {
 		return nil, err
 	}
